@@ -33,7 +33,9 @@ def coq_case(case, res, with_last=True, with_mem=True):
     outn, outb, outv = res['out']
     if timed_out or outb is None:
         outn, outb, outv = 0, [], 0          # only "does not halt within the fuel" is compared
-    return (f'mkcase {ww} {fw.npairs(segs)} {fw.npairs(case_words(case))} {fw.nlist(inp)} {fuel} '
+    eng = {'featured': 0, 'fast': 1, 'native': 2}[case['engine']]
+    dlen = [len(d) for _, _, d in case['segs']]
+    return (f'mkcase {eng} {ww} {fw.npairs(segs)} {fw.nlist(dlen)} {fw.npairs(case_words(case))} {fw.nlist(inp)} {fuel} '
             f'{cause} {0 if timed_out else res["ops"]} {fault} {outn} {fw.nlist(outb)} {outv} ({last}) {mem}')
 
 
